@@ -151,7 +151,8 @@ pub fn run(reg: &dyn Registry, ctx: &Ctx) -> Outcome {
         big.push(reg.get("Hc128Rng").unwrap());
         for ty in big {
             let info = ty.info();
-            let n: usize = 1 << 17;
+            // expected number of colliding pairs for a lossy 32-bit digest: n^2 / 2^33 (8 for 2^18, 2 for 2^17)
+            let n: usize = if info.name.starts_with("Hc128") { 1 << 18 } else { 1 << 17 };
             let seed = standard_seeds(ty, ctx.seed)[1].clone();
             let mut g = ty.from_seed(&seed);
             let blocks_apart = if info.name.starts_with("Hc128") { 64 } else { 1 };
